@@ -96,6 +96,10 @@ def generate(rng, index, tier, extra):
 def _generate(rng, index, tier, extra):  # pylint: disable=unused-argument
     roll = rng.random()
     discards = []
+    if rng.random() < 0.01:
+        # the application registers its own parsers for the Finished message (the library has none) while it reads
+        return {'kind': 'registry', 'order': rng.choice(('tls-first', 'ssl3-first')), 'parse_between': rng.random() < 0.8,
+                'before': rng.randrange(0, 3), 'seed': rng.getrandbits(32)}
     if roll < 0.12:
         channel = rng.choice(C04_CHANNELS)
         return {'kind': 'prefix', 'channel': channel.name, 'record': channel.make(rng, discards).hex(),
@@ -213,11 +217,18 @@ def _history_check(res, layer, units, label):
                       '%s: %d stray bytes' % (label, len(layer.buf)))
 
 
+def needs_isolation(doc):
+    # registering parsers changes class-level state: in a forked child, so that it does not reach the next run
+    return doc['kind'] == 'registry'
+
+
 def execute(doc):
     res = core.Result()
     kind = doc['kind']
     if kind == 'stream':
         _exec_stream(doc, res)
+    elif kind == 'registry':
+        _exec_registry(doc, res)
     elif kind == 'tls2':
         _exec_tls2(doc, res)
     elif kind == 'prefix':
@@ -276,6 +287,75 @@ def _exec_stream(doc, res):
     if any(kind == 'boundary' for _, kind in buckets):
         res.stats['probe.cut_exactly_at_boundary'] += 1
     res.stats['runs.stream.' + channel.name] += 1
+
+
+def _exec_registry(doc, res):
+    """The library has no parser for the Finished handshake message; an application registers its own with
+    register_variant_parser() - one class for the 12-octet TLS form, one for the 36-octet SSL 3.0 form, both under the
+    FINISHED tag, at different moments of the connection.  Whatever was parsed or registered before, a Finished
+    message of either form that is completely in the buffer is delivered (and its prefixes ask for what is missing)."""
+    import random as _random
+    from cryptoparser.common.exception import InvalidType
+    from cryptoparser.tls.subprotocol import TlsHandshakeMessage, TlsHandshakeMessageVariant, TlsHandshakeType
+    rng = _random.Random(doc['seed'])
+
+    def finished_class(size):
+        class Finished(TlsHandshakeMessage):  # pylint: disable=too-few-public-methods
+            SIZE = size
+
+            def __init__(self, verify_data):
+                super(Finished, self).__init__()
+                self.verify_data = bytes(verify_data)
+
+            @classmethod
+            def get_handshake_type(cls):
+                return TlsHandshakeType.FINISHED
+
+            @classmethod
+            def _parse(cls, parsable):
+                parser = cls._parse_handshake_header(parsable)
+                if len(parser['payload']) != cls.SIZE:
+                    raise InvalidType()          # the other form: left to the other registered class
+                return cls(parser['payload']), parser.parsed_length
+
+            def compose(self):
+                return self._compose_header(len(self.verify_data)) + self.verify_data
+        return Finished
+
+    forms = {'tls': finished_class(12), 'ssl3': finished_class(36)}
+    order = ('tls', 'ssl3') if doc['order'] == 'tls-first' else ('ssl3', 'tls')
+
+    def deliver(form):
+        message = bytes(forms[form](rng.randbytes(forms[form].SIZE)).compose())
+        layer = wire.Layer('tls_handshake', TlsHandshakeMessageVariant, 'strict', res, PROPERTY, truth=[len(message)])
+        cut = rng.randrange(0, len(message))
+        layer.feed(message[:cut])
+        while not layer.dead and not layer.delivered and len(layer.buf) < len(message):
+            have = len(layer.buf)
+            layer.feed(message[have:have + max(1, layer.need)], eof=have + max(1, layer.need) >= len(message))
+        return bool(layer.delivered) and not res.violations
+
+    for _ in range(doc['before']):
+        try:
+            TlsHandshakeMessageVariant.parse_immutable(workload.handshake_message(rng))
+        except Exception:  # pylint: disable=broad-except
+            pass
+    TlsHandshakeMessageVariant.register_variant_parser(TlsHandshakeType.FINISHED, forms[order[0]])
+    res.event('registry', 'register', order[0])
+    good = deliver(order[0]) if doc['parse_between'] else True
+    if good:
+        TlsHandshakeMessageVariant.register_variant_parser(TlsHandshakeType.FINISHED, forms[order[1]])
+        res.event('registry', 'register', order[1])
+        good = deliver(order[1]) and deliver(order[0])
+    if not good and not res.violations:
+        res.violation((PROPERTY, 'registered-record-type-not-delivered', 'TlsHandshakeMessageVariant'),
+                      'the reader ends up with exactly the sequence of records that was sent',
+                      'a complete Finished message was not delivered after its parser had been registered (%s)' % doc['order'])
+    res.sim_events += 3
+    res.stats['runs.registry'] += 1
+    res.stats['probe.parser_registered_at_run_time'] += 2
+    res.sched_sig = ('registry', doc['order'], doc['parse_between'], doc['before'], good)
+    res.nontrivial = True
 
 
 def _exec_tls2(doc, res):
